@@ -285,6 +285,26 @@ int64_t cmb_priorityqueue_put(struct cmb_priorityqueue *pqp,
     }
 }
 
+/*
+ * cmb_priorityqueue_cancel - Take an object out of the queue by its handle.
+ * The queue gets shorter, which is a change to record, and frees a slot that
+ * a waiting putter may be able to use.
+ */
+bool cmb_priorityqueue_cancel(struct cmb_priorityqueue *pqp,
+                              const uint64_t handle)
+{
+    cmb_assert_release(pqp != NULL);
+    cmb_assert_release(((struct cmi_resourcebase *)pqp)->cookie == CMI_INITIALIZED);
+
+    const bool found = cmi_hashheap_remove(&(pqp->queue), handle);
+    if (found) {
+        record_sample(pqp);
+        cmb_resourceguard_signal(&(pqp->rear_guard));
+    }
+
+    return found;
+}
+
 uint64_t cmb_priorityqueue_position(const struct cmb_priorityqueue *pqp,
                                     const uint64_t handle)
 {
